@@ -66,6 +66,21 @@ class C01(Prop):
                         fb[L - 1] = 0x16
                     tail = list(G.enc(k, 0x56, 0x45, 48, 5, b"")) if rng.random() < 0.5 else []
                     cases.append({"kind": "short-length:%d" % L, "stream": fb + tail, "chunks": chunking(rng, len(fb + tail)) if rng.random() < 0.5 else None})
+        # frame-shaped runs whose FIRST byte is not the delimiter (checksum compensated) while a 0x68 sits elsewhere in the
+        # seven header bytes (length low byte, sender-type or version byte), arriving whole or in chunks
+        for k in kinds:
+            for where in ("len104", "len360", "etype", "ever"):
+                plen = {"len104": 94, "len360": 350}.get(where, rng.choice([0, 3, 20]))
+                et, ev = (0x68 if where == "etype" else 48), (0x68 if where == "ever" else 5)
+                fb = bytearray(G.enc(k, rng.choice(G.OUR_RCPT), rng.choice(G.KNOWN_SENDERS), et, ev, G.rand_payload(rng, plen)))
+                new0 = rng.choice([0x00, 0x69, 0xE8, rng.randrange(256)])
+                if new0 == 0x68:
+                    new0 = 0x00
+                fb[-2] ^= fb[0] ^ new0          # keep the checksum consistent with the changed first byte
+                fb[0] = new0
+                tail = bytes(G.enc(k, 0x56, 0x45, 48, 5, b"")) if rng.random() < 0.5 else b""
+                st = bytes(fb) + tail
+                cases.append({"kind": "no-start+inner68:" + where, "stream": list(st), "chunks": None if rng.random() < 0.6 else chunking(rng, len(st))})
         for _ in range(n):
             parts = []
             kindtag = []
